@@ -107,6 +107,19 @@ public:
     ///
     bool sconverged(scalar_t epsilon) const;
 
+#ifdef NANO_VERIF
+    ///
+    /// \brief verification accessors to the stored sub-gradients, linearization errors and multipliers.
+    ///
+    const matrix_t& verif_bundleS() const { return m_bundleS; }
+
+    const vector_t& verif_bundleE() const { return m_bundleE; }
+
+    const vector_t& verif_alphas() const { return m_alphas; }
+
+    tensor_size_t verif_capacity() const { return m_alphas.size(); }
+#endif
+
 private:
     tensor_size_t dims() const { return m_bundleS.size<1>(); }
 
